@@ -1,7 +1,7 @@
 """Common machinery of the fix8 checks: builds (Lean, harnesses, out-of-tree runtime/f8c/schema
 objects keyed by content hash), stream running with sanitizer-abort recovery, audit of the
 Lean sources (grep + #print axioms), evidence and verdict plumbing."""
-import fcntl, hashlib, json, threading, os, re, shutil, subprocess, sys, time, glob, random
+import fcntl, hashlib, json, threading, os, re, shutil, subprocess, sys, time, glob, random, tempfile
 
 ROOT = os.path.dirname(os.path.dirname(os.path.abspath(__file__)))
 REPO = os.environ.get('VERIF_REPO', '/repo')
@@ -362,6 +362,9 @@ def run_harness(exe, lines, per_line_timeout=20.0, env=None, args=(), stateful=F
     while pos < len(lines):
         chunk = lines[pos:]
         errf = os.path.join(CACHE, 'err_%d.txt' % os.getpid())
+        # harness scratch files live below one directory per harness process, removed when the process is gone
+        scratch = tempfile.mkdtemp(prefix='verif_run_')
+        env = dict(env, VERIF_SCRATCH=scratch)
         with open(errf, 'w') as ef:
             p = subprocess.Popen([exe] + list(args), stdin=subprocess.PIPE, stdout=subprocess.PIPE, stderr=ef, text=True,
                                  errors='replace', env=env, cwd=cwd)
@@ -402,6 +405,7 @@ def run_harness(exe, lines, per_line_timeout=20.0, env=None, args=(), stateful=F
             got.pop()
         err = open(errf, errors='replace').read()
         os.unlink(errf)
+        shutil.rmtree(scratch, ignore_errors=True)
         if rc == 0 and len(got) == len(chunk):
             outs += got
             break
